@@ -37,7 +37,8 @@ HitNames == {"TreeFit", "Cls", "Reg", "DepthLimited", "LeafLimit", "OptReg", "Op
              "CompleteReg", "SideCond", "OptGini", "OptEntropy", "OptError", "CompleteCls", "Reproduce",
              "Refit", "Scaled", "ScaledFar", "Orphan", "ArgSort", "Replayed", "Drift",
              "Adjacent", "F32", "NdarrayF", "NdarrayC", "Nalgebra",
-             "NearMax", "Ordered", "Ladder", "TraitEntry", "SortPattern", "SortLadder"}
+             "NearMax", "Ordered", "Ladder", "TraitEntry", "SortPattern", "SortLadder",
+             "LabelFractional", "LabelColliding", "LabelTiny", "LabelHuge", "LabelSignedZero", "ManyClasses"}
 
 Bump(h, names) == [x \in DOMAIN h |-> h[x] + (IF x \in names THEN 1 ELSE 0)]
 Add(h, name, k) == [h EXCEPT ![name] = @ + k]
@@ -51,7 +52,17 @@ Exercised(e, r) ==
     \cup (IF e.family = "adjacent" /\ Len(e.nodes) > 1 THEN {"Adjacent"} ELSE {})
     \cup (IF e.family = "ordered" /\ Len(e.X) >= 8 THEN {"Ordered"} ELSE {})      \* structured row orders
     \cup (IF e.family = "ladder" /\ Len(e.X) >= 255 THEN {"Ladder"} ELSE {})      \* sizes around powers of two
-    \cup (IF e.entry = "trait" THEN {"TraitEntry"} ELSE {})                        \* SupervisedEstimator / Predictor
+    \cup (IF e.entry = "trait" THEN {"TraitEntry"} ELSE {})
+    \* label sets with a special arithmetic shape (only counted when the tree actually splits)
+    \cup (IF e.kind = "cls" /\ Len(e.nodes) > 1
+          THEN CASE e.labelFamily = "fractional" -> {"LabelFractional"}
+                 [] e.labelFamily = "colliding" -> {"LabelColliding"}
+                 [] e.labelFamily = "tiny" -> {"LabelTiny"}
+                 [] e.labelFamily = "huge" -> {"LabelHuge"}
+                 [] e.labelFamily = "signedzero" -> {"LabelSignedZero"}
+                 [] e.labelFamily = "manyclass" -> {"ManyClasses"}
+                 [] OTHER -> {}
+          ELSE {})                        \* SupervisedEstimator / Predictor
     \cup (CASE e.backend = "dense32" -> {"F32"} [] e.backend = "ndarray_f" -> {"NdarrayF"}
             [] e.backend = "ndarray_c" -> {"NdarrayC"} [] e.backend = "nalgebra" -> {"Nalgebra"} [] OTHER -> {})
     \cup (IF e.maxDepth > 0 THEN {"DepthLimited"} ELSE {})
